@@ -8,10 +8,10 @@ use nom::branch::alt;
 use nom::bytes::complete::{tag, take_while, take_while1};
 use nom::character::complete::digit1;
 use nom::character::{is_alphabetic, is_alphanumeric, is_hex_digit};
-use nom::combinator::{map, map_res, opt, recognize, verify};
+use nom::combinator::{map, map_res, opt, peek, recognize, verify};
 use nom::multi::{fold_many0, many0, many1};
 use nom::number::complete::be_u8;
-use nom::sequence::{delimited, preceded};
+use nom::sequence::{delimited, preceded, terminated};
 use nom::IResult;
 
 #[doc(hidden)]
@@ -317,7 +317,7 @@ fn extensible(i: &[u8]) -> IResult<&[u8], Tag> {
 
 fn attr_dn_mrule(i: &[u8]) -> IResult<&[u8], Tag> {
     let (i, attr) = attributedescription(i)?;
-    let (i, dn) = opt(tag(b":dn"))(i)?;
+    let (i, dn) = opt(dnattrs)(i)?;
     let (i, mrule) = opt(preceded(tag(b":"), attributetype))(i)?;
     let (i, _) = tag(b":=")(i)?;
     let (i, value) = unescaped(i)?;
@@ -325,11 +325,17 @@ fn attr_dn_mrule(i: &[u8]) -> IResult<&[u8], Tag> {
 }
 
 fn dn_mrule(i: &[u8]) -> IResult<&[u8], Tag> {
-    let (i, dn) = opt(tag(b":dn"))(i)?;
+    let (i, dn) = opt(dnattrs)(i)?;
     let (i, mrule) = preceded(tag(b":"), attributetype)(i)?;
     let (i, _) = tag(b":=")(i)?;
     let (i, value) = unescaped(i)?;
     Ok((i, extensible_tag(Some(mrule), None, value, dn.is_some())))
+}
+
+// The ":dn" flag is always followed by another colon, that of the matching rule or of ":=";
+// without the lookahead it would swallow the start of rule names such as "dnSubtreeMatch".
+fn dnattrs(i: &[u8]) -> IResult<&[u8], &[u8]> {
+    terminated(tag(b":dn"), peek(tag(b":")))(i)
 }
 
 fn extensible_tag(mrule: Option<&[u8]>, attr: Option<&[u8]>, value: Vec<u8>, dn: bool) -> Tag {
